@@ -17,4 +17,20 @@ TEXT = {
               'treated as reals + NaN (A-REAL) except two standard-model rounding lemmas (A-FP).'),
         technique='contract-based deductive verification: path-wise VCs from the real AST + spec-function lemmas, z3'),
 }
+TEXT['C01'] = dict(
+    text=('Unbounded proof over all tables satisfying the table invariant: metar_msg is symbolically executed from its real AST (all '
+          'three levels, MSA None or real, table missing); grammar, 1-3-5 thresholds of the groups, height order, no zero-okta group and '
+          'no group at/above the MSA are postconditions discharged by z3; the functions that establish the invariant pieces '
+          '(significant_cloud, okta2code, height2code) are verified in the same check.'),
+    design_ref='DESIGN.md section 4 (C01)',
+    note=('Trusted: pyvc, z3 (strings/regex), assumed pandas contracts for column access, bool-Series product, comparison, mask '
+          'filtering, to_list, any, str.join; floats as reals; TI assumed at entry of metar_msg and proved as metarize postcondition '
+          'only for the clauses listed in the evidence.'),
+    technique='contract-based deductive verification: postconditions over a table invariant, VCs from the real AST, z3')
+TEXT['C02'] = dict(
+    text=('Unbounded proof: message characterisation postconditions of metar_msg (from its real AST) plus inductive lemmas over the '
+          'table invariant that turn them into the property statements about okta (lowest layer first, ceiling kept, NCD/NSC exact).'),
+    design_ref='DESIGN.md section 4 (C02)',
+    note='Trusted: as C01; the induction principle over table rows (base + step obligations) is the meta-rule of the lemma objects.',
+    technique='contract-based deductive verification: postconditions + inductive lemmas over contracts, z3')
 NA = {}
